@@ -4,7 +4,7 @@
     it ([ilen_step], all operations; [ilen_history]); it holds in a new world.  Needed by
     Proofs/BatchCreate.v (batch creation = single creations, literally).  Most operations
     keep both lengths ([ils]); creation, Reset and load change them together. *)
-From Arche Require Import Model.Base Model.Pool Model.Filter Model.World Model.Ops.
+From Arche Require Import Model.Base Model.Pool Model.Filter Model.World Model.Ops Proofs.Frame Proofs.Atomic Proofs.GhostBase.
 
 Notation res_world r := (fst (fst r)).
 
@@ -422,7 +422,7 @@ Proof.
 Qed.
 
 (** ** Every operation keeps [ilen] *)
-Theorem ilen_step w o : ilen w -> ilen (res_world (step w o)).
+Lemma ilen_step0 w o : ilen w -> ilen (res_world (step0 w o)).
 Proof.
   intros Hi.
   assert (Fr : forall w', ils w w' -> ilen w') by (intros w' F; by apply (ils_ilen w)).
@@ -538,6 +538,30 @@ Proof.
   - apply Fr. ilfr.
   - done.
   - done.
+Qed.
+
+(** The world a panicking creation or exchange leaves behind. *)
+Lemma ils_foc_world w src add rem target : ils w (foc_world w src add rem target).
+Proof.
+  apply (foc_world_ind ils).
+  - apply ils_refl.
+  - intros w1 tid H. by eapply ils_find_or_create_table.
+  - intros st sn wa m1 rel1 pre m2 r2 w1 _ _ Hr _ Ha.
+    pose proof (ils_walk_rem rem w (n_mask sn) (n_rel sn)) as F1. rewrite Hr in F1. simpl in F1.
+    eapply ils_trans; [exact F1|]. by eapply ils_walk_add.
+Qed.
+Lemma ils_ghost_of w o : ils w (ghost_of w o).
+Proof.
+  destruct (ghost_of_case w o) as [->|[(tg & _ & _ & ->)|(e & rem & rel & ->)]];
+    [apply ils_refl|apply ils_foc_world|].
+  destruct (exchange_ghost_case w e (ghost_ids o) rem rel) as [->|(src & row & st & sn & mask & tg & _ & _ & _ & _ & _ & _ & _ & ->)];
+    [apply ils_refl|apply ils_foc_world].
+Qed.
+
+Theorem ilen_step w o : ilen w -> ilen (res_world (step w o)).
+Proof.
+  intros Hi. destruct (step_cases w o) as [[-> _]|[_ ->]]; [by apply ilen_step0|].
+  simpl. apply (ils_ilen w (ghost_of w o)); [apply ils_ghost_of|done].
 Qed.
 
 Theorem ilen_history ops : forall w, ilen w -> ilen (run w ops).
